@@ -350,6 +350,18 @@ func registryLen(api *apifu.API) int {
 
 const registryStuck = 1 << 30
 
+// registryLenPatient: a single failed attempt may be a holder that was descheduled on a busy machine;
+// only a mutex that stays held for `patience` counts as stuck.
+func registryLenPatient(api *apifu.API, patience time.Duration) int {
+	t0 := time.Now()
+	for {
+		n := registryLen(api)
+		if n != registryStuck || time.Since(t0) > patience {
+			return n
+		}
+	}
+}
+
 // ---- wire syntax ------------------------------------------------------------------------------------
 
 var malformedSpellings = []string{`{"type":`, `not json`, `[1,2]`, `{"id":5,"type":"connection_init"}`, `"str"`, ``, `{"type":"start","payload":{"query":"{q}"}`, `{"type":7}`}
@@ -1104,7 +1116,7 @@ func runConn(w *world, sess Session, deadline time.Duration, k int, grp *group) 
 	p.conn = conn
 	if !sess.Early {
 		// the history starts once the connection is established on the server side (registered and served)
-		p.waitFor("the connection to be registered", func() bool { n := registryLen(w.api); return n < 0 || n >= k+1 })
+		p.waitFor("the connection to be registered", func() bool { n := registryLen(w.api); return n < 0 || (n != registryStuck && n >= k+1) })
 	}
 	if grp != nil {
 		grp.dialed(k)
@@ -1152,7 +1164,7 @@ func runConn(w *world, sess Session, deadline time.Duration, k int, grp *group) 
 	if sess.SlowStop {
 		time.Sleep(5 * time.Millisecond) // a second, concurrent closer would still be inside Stop()
 	}
-	n := registryLen(w.api)
+	n := registryLenPatient(w.api, 3*time.Second)
 	obs.Dereg = n <= 0
 	if n < 0 {
 		p.stats["registry-not-readable"]++
